@@ -30,7 +30,7 @@ RULE = ("case = (documented name, spelling in {as documented, all '_', all '-', 
         "non-trivial: every load of a documented name; distinct by (name, spelling, unpack)."
         " Also: the data-home variable switched between loads of one process, a value starting with '~' (HOME redirected), the description tables through their public accessors, unpacked columns compared with the columns of the plain load.")
 REQUIRED_MONITORS = ["c18:bundled", "c18:remote", "c18:pinned_checksum_enforced", "c18:all_in_one_home",
-                     "c18:undocumented", "c18:default_home", "c18:substitution_wrapper", "c18:switch_home", "c18:tilde_home", "c18:description_accessors"]
+                     "c18:undocumented", "c18:default_home", "c18:substitution_wrapper", "c18:switch_home", "c18:tilde_home", "c18:relative_home", "c18:description_accessors"]
 ASSUMPTIONS = ["the served payloads are synthetic; what is observed is the loader's behaviour per name, not the remote files"]
 NPARTS = 12
 
@@ -376,44 +376,54 @@ def run_switch_home(ctx):
 
 
 def run_tilde_home(ctx):
-    """TRAFFIC_WEAVER_DATA=~/something (HOME redirected): the cache must live under $HOME/something, and a dataset
-    already cached there must be served without a request"""
+    """TRAFFIC_WEAVER_DATA given the way .env files give it: ~/something (HOME redirected) must mean $HOME/something,
+    a relative value must mean that path under the CURRENT directory (which is not the home directory here); the
+    cache must live there, and a dataset already cached there must be served without a request"""
+    for value, where, mon in (("~/tw-cache", "home", "c18:tilde_home"), ("tw-cache", "cwd", "c18:relative_home"),
+                              ("./var/tw-cache", "cwd", "c18:relative_home")):
+        _run_named_home(ctx, value, where, mon)
+
+
+def _run_named_home(ctx, value, where, mon):
     names = [n for _t, n in _ds.documented_names() if not _ds.is_bundled(n)]
-    pick = [names[i] for i in ctx.rng("tilde", 0).choice(len(names), size=4, replace=False)]
+    pick = [names[i] for i in ctx.rng("tilde", len(value)).choice(len(names), size=4, replace=False)]
     scratch = _ds.scratch_root()
     try:
         user_home = os.path.join(scratch, "userhome")
         os.mkdir(user_home)
-        real = os.path.join(user_home, "tw-cache")
+        tail = value[2:] if value.startswith(("~/", "./")) else value
+        real = os.path.normpath(os.path.join(user_home if where == "home" else scratch, tail))
         steps = [{"op": "net", "default": "good"}] + [{"op": "by_name", "name": n, "substitute": True} for n in pick]
         steps += [{"op": "net", "default": "urlerror"}] + [{"op": "by_name", "name": n, "substitute": True} for n in pick]
         rc, out, err = _ds.run_child({"home": real, "home_mode": "tilde", "user_home": user_home,
-                                      "tilde_value": "~/tw-cache", "steps": steps}, scratch)
+                                      "tilde_value": value, "steps": steps}, scratch)
         if out is None:
             raise RuntimeError("dataset child failed rc=%s: %s" % (rc, err))
         res = out["results"]
         for j, n in enumerate(pick):
-            cid = {"kind": "tilde_home", "name": n, "seed": ctx.seed}
+            cid = {"kind": "tilde_home", "name": n, "value": value, "seed": ctx.seed}
             ctx.judged()
-            ctx.monitor("c18:tilde_home")
+            ctx.monitor(mon)
             r, r2 = res[1 + j], res[2 + len(pick) + j]
             if r.get("outcome") != "ok":
                 ctx.violation("documented_name_not_loadable", cid, {"exception": r.get("exc_type"), "message": r.get("exc_msg")})
                 continue
-            bad = _ds.outside_writes(r["audit"], real)
-            if bad:
+            # creating the named directory may create its parents (var/ for ./var/tw-cache)
+            bad = [e for e in _ds.outside_writes(r["audit"], real)
+                   if not (e[0] == "os.mkdir" and real.startswith(os.path.normpath(str(e[1])) + os.sep))]
+            if bad or not os.path.isdir(real):
                 ctx.violation("cache_not_under_the_directory_named_by_TRAFFIC_WEAVER_DATA", cid,
-                              {"value": "~/tw-cache", "expected_root": real, "events": bad[:4]})
+                              {"value": value, "expected_root": real, "events": bad[:4], "exists": os.path.isdir(real)})
                 continue
             if r2.get("outcome") != "ok" or r2["requests"]:
                 ctx.violation("cached_dataset_not_served_without_network", cid,
                               {"outcome": r2.get("outcome"), "exception": r2.get("exc_type"), "requests": r2["requests"]})
                 continue
-            ctx.nontriv("tilde", n)
+            ctx.nontriv("tilde", value, n)
         stray = [e for e in os.listdir(scratch) if e.startswith("~")]
         if stray:
             ctx.violation("literal_tilde_directory_created", {"kind": "tilde_home", "seed": ctx.seed}, {"entries": stray})
-        ctx.sample({"tilde_home": {"TRAFFIC_WEAVER_DATA": "~/tw-cache", "names": pick}})
+        ctx.sample({"named_home": {"TRAFFIC_WEAVER_DATA": value, "resolved_against": where, "names": pick}})
     finally:
         shutil.rmtree(scratch, ignore_errors=True)
 
